@@ -8,8 +8,13 @@ root = os.path.dirname(os.path.dirname(os.path.abspath(__file__)))
 path = os.path.join(root, "DESIGN.md")
 lines = open(path).read().split("\n")
 out = []
+inside = False
 for ln in lines:
-    m = re.match(r"^\| (C\d\d) \| ([a-z_]+) \| (.*?) \| (.*) \|$", ln)
+    if ln.startswith("### 0.6"):
+        inside = True
+    elif ln.startswith("#") and not ln.startswith("### 0.6"):
+        inside = False
+    m = inside and re.match(r"^\| (C\d\d) \| ([a-z_]+) \| (.*?) \| (.*) \|$", ln)
     if m and m.group(1) in pipelines.PROPS and len(ln) > 200:
         pid = m.group(1)
         p = pipelines.PROPS[pid]
